@@ -23,8 +23,9 @@ fn walk(dir: &Path, rel: &str, out: &mut Vec<(String, Vec<u8>)>) {
         let e = e.expect("dir entry");
         let name = e.file_name().to_string_lossy().into_owned();
         let r = if rel.is_empty() { name.clone() } else { format!("{}/{}", rel, name) };
-        let ft = e.file_type().expect("file type");
-        if ft.is_dir() {
+        // follow symlinks (C07's cross-mount directory `xm` is one)
+        let is_dir = fs::metadata(e.path()).map(|m| m.is_dir()).unwrap_or(false);
+        if is_dir {
             walk(&e.path(), &r, out);
         } else {
             let raw = fs::read(e.path()).expect("read file");
